@@ -626,6 +626,11 @@ func validateNumberRange(fv float64, nr *numberRange) error {
 		return nil
 	}
 
+	// NaN is not ordered against the bounds, it lies in no range
+	if math.IsNaN(fv) {
+		return errNumberRange
+	}
+
 	if (nr.leftInclude && fv < nr.left) || (!nr.leftInclude && fv <= nr.left) {
 		return errNumberRange
 	}
